@@ -78,6 +78,17 @@ def worker_main(pid, descs_path, out_path):
             out.flush()
 
 
+def _nonan(x):
+    """Strict JSON for the evidence files: NaN / inf become strings."""
+    if isinstance(x, float) and (x != x or x in (float('inf'), float('-inf'))):
+        return repr(x)
+    if isinstance(x, dict):
+        return {k: _nonan(v) for k, v in x.items()}
+    if isinstance(x, (list, tuple)):
+        return [_nonan(v) for v in x]
+    return x
+
+
 def _default(o):
     import numpy as np
     if isinstance(o, np.generic):
@@ -256,7 +267,7 @@ def run_property(pid, tier, seed, replay=None):
         edir = os.environ.get('VERIF_EVIDENCE_DIR') or os.path.join(env.VERIF_DIR, 'evidence')
         os.makedirs(edir, exist_ok=True)
         with open(os.path.join(edir, pid + '.json'), 'w') as fh:
-            json.dump(ev, fh, indent=1, default=_default)
+            json.dump(_nonan(json.loads(json.dumps(ev, default=_default))), fh, indent=1, allow_nan=False)
     # ---- clean the scratch directory
     import shutil
     shutil.rmtree(work, ignore_errors=True)
